@@ -46,6 +46,19 @@ def main():
               f"\n  demo with change:    rc={rc1} ({out1.strip().splitlines()[-1][:160] if out1.strip() else ''})\n  tests: {tests}")
         for p, (rcc, v, last) in res.items():
             print(f"  check {p}: exit={rcc} {'DETECTED' if rcc == 1 else ('MISSED' if rcc == 0 else 'INFRA')}  {v}\n     {last}")
+        if "--record" in sys.argv:
+            meta["confirmed_by_me"] = {
+                "ran": "tools/try_seed.py: fresh worktree of /repo HEAD; demo before patch; git apply patch.diff; demo after; "
+                       "tools/baseline.py (pinned suite vs BASELINE stable_pass); ./check <prop> --tier quick with VERIF_REPO=<worktree>",
+                "demo_without_change": "PASS (exit 0)" if rc0 == 0 else f"exit {rc0}",
+                "demo_with_change": "FAIL (exit 1)" if rc1 == 1 else f"exit {rc1}",
+                "tests": tests,
+            }
+            meta.setdefault("checks", {})
+            for p, (rcc, v, last) in res.items():
+                meta["checks"][p] = {"exit": rcc, "verdict": "DETECTED" if rcc == 1 else ("MISSED" if rcc == 0 else "INFRA"),
+                                     "lines": v}
+            json.dump(meta, open(os.path.join(sd, "meta.json"), "w"), indent=1)
         return 0
     finally:
         sh(f"git -C /repo worktree remove --force {repo}")
